@@ -1100,6 +1100,17 @@ func checkConsumedDelivers(c *Ctx, p *Prog, rule string, only func(name string) 
 				if st, ok := in.(*ssa.Store); ok && st.Addr == ssa.Value(pi.evsPrm) {
 					removed[b] = true
 				}
+				// the event may be appended by a helper that is handed the list (`appendClipboard(evs, payload)`):
+				// every way through the helper stores into the list, the base64 error edge excepted
+				if cc := callCommon(in); cc != nil {
+					if h := cc.StaticCallee(); h != nil && h.Pkg == fn.Pkg && len(h.Blocks) > 0 {
+						for i, a := range cc.Args {
+							if a == ssa.Value(pi.evsPrm) && i < len(h.Params) && helperAlwaysAppends(h, h.Params[i]) {
+								removed[b] = true
+							}
+						}
+					}
+				}
 			}
 		}
 		type edge struct {
@@ -1470,4 +1481,71 @@ func examinedUpTo(fn *ssa.Function, input ssa.Value, b *ssa.BasicBlock, n ssa.Va
 		}
 	})
 	return last && !bad
+}
+
+// helperAlwaysAppends: every path through h to a return passes a store into the event list evs, except
+// by the error edge of the base64 decoder (a clipboard reply whose payload is not base64 has nothing to
+// deliver).
+func helperAlwaysAppends(h *ssa.Function, evs *ssa.Parameter) bool {
+	appends := map[*ssa.BasicBlock]bool{}
+	for _, b := range h.Blocks {
+		for _, in := range b.Instrs {
+			if st, ok := in.(*ssa.Store); ok && st.Addr == ssa.Value(evs) {
+				appends[b] = true
+			}
+		}
+	}
+	if len(appends) == 0 {
+		return false
+	}
+	type edge struct {
+		from *ssa.BasicBlock
+		idx  int
+	}
+	excused := map[edge]bool{}
+	for _, b := range h.Blocks {
+		if len(b.Instrs) == 0 {
+			continue
+		}
+		iff, ok := b.Instrs[len(b.Instrs)-1].(*ssa.If)
+		if !ok {
+			continue
+		}
+		if bo, isBO := iff.Cond.(*ssa.BinOp); isBO && (bo.Op == token.EQL || bo.Op == token.NEQ) && isNilConst(bo.Y) {
+			if ex, isEx := bo.X.(*ssa.Extract); isEx {
+				if call, isCall := ex.Tuple.(*ssa.Call); isCall && strings.HasPrefix(calleeName(&call.Call), "(*encoding/base64.Encoding).Decode") {
+					if bo.Op == token.EQL {
+						excused[edge{b, 1}] = true
+					} else {
+						excused[edge{b, 0}] = true
+					}
+				}
+			}
+		}
+	}
+	seen := map[*ssa.BasicBlock]bool{}
+	var stack []*ssa.BasicBlock
+	if !appends[h.Blocks[0]] {
+		stack = append(stack, h.Blocks[0])
+	}
+	for len(stack) > 0 {
+		b := stack[len(stack)-1]
+		stack = stack[:len(stack)-1]
+		if seen[b] {
+			continue
+		}
+		seen[b] = true
+		for i, s := range b.Succs {
+			if appends[s] || excused[edge{b, i}] {
+				continue
+			}
+			stack = append(stack, s)
+		}
+	}
+	for _, r := range returnsOf(h) {
+		if seen[r.Block()] {
+			return false
+		}
+	}
+	return true
 }
